@@ -57,6 +57,7 @@ import (
 	"github.com/btcsuite/btcd/wire/v2"
 	"github.com/lightningnetwork/lnd/actor"
 	"github.com/lightningnetwork/lnd/channeldb"
+	"github.com/lightningnetwork/lnd/fn/v2"
 	"github.com/lightningnetwork/lnd/graph"
 	graphdb "github.com/lightningnetwork/lnd/graph/db"
 	"github.com/lightningnetwork/lnd/graph/db/models"
@@ -512,6 +513,30 @@ func (c *verifC20Ctx) snapshot() *verifC20Snap {
 	if err != nil {
 		c.t.Fatalf("C20 snapshot ForEachNode: %v", err)
 	}
+	// Second view of the stored policies: the time-series read path that
+	// serves gossip queries of peers (ChanUpdatesInHorizon), which goes
+	// through the store's in-memory channel cache. Keys hz/<scid>/<dir>; a
+	// change of such a key is judged exactly like the pol/ key of the same
+	// channel and direction.
+	hzRange := graphdb.ChanUpdateRange{
+		StartTime: fn.Some(time.Unix(0, 0)),
+		EndTime:   fn.Some(time.Unix(1<<33, 0)),
+	}
+	for e, err := range c.vgraph.ChanUpdatesInHorizon(c.ctx, hzRange) {
+		if err != nil {
+			c.t.Fatalf("C20 snapshot ChanUpdatesInHorizon: %v", err)
+		}
+		if e.Info == nil {
+			continue
+		}
+		for d, p := range []*models.ChannelEdgePolicy{e.Policy1, e.Policy2} {
+			if p == nil {
+				continue
+			}
+			_, fp := verifC20PolFP(p)
+			s.kv[fmt.Sprintf("hz/%d/%d", e.Info.ChannelID, d)] = fp
+		}
+	}
 	s.zomb = map[uint64]string{}
 	for _, scid := range c.zTracked {
 		isZ, k1, k2, err := c.vgraph.IsZombieEdge(c.ctx, scid)
@@ -703,6 +728,20 @@ type verifC20Ctx struct {
 
 	// scids the harness brought into the zombie index (snapshot.zomb).
 	zTracked []uint64
+
+	// restart dimension: what is needed to re-create the stack on the same
+	// database, and the options of the store that is currently open.
+	sentSlot *verifC20Slot
+	sk       [4]*btcec.PrivateKey
+	opts     verifC20StoreOpts
+	restarts int
+}
+
+// verifC20StoreOpts are the in-memory cache sizes of the graph store
+// (0 = lnd's default). Tiny sizes make the reject / channel caches evict on
+// nearly every lookup of another channel.
+type verifC20StoreOpts struct {
+	Rej, Chan int
 }
 
 const verifC20Wait = 90 * time.Second
@@ -805,7 +844,7 @@ var (
 )
 
 func verifC20NewCtx(t *testing.T, vc *verifCtx, r *verifRng, chain *verifC20Chain,
-	sentSlot *verifC20Slot, sk [4]*btcec.PrivateKey) *verifC20Ctx {
+	sentSlot *verifC20Slot, sk [4]*btcec.PrivateKey, o verifC20StoreOpts) *verifC20Ctx {
 
 	verifC20WPOnce.Do(func() {
 		db := channeldb.OpenForTesting(t, t.TempDir())
@@ -817,7 +856,7 @@ func verifC20NewCtx(t *testing.T, vc *verifCtx, r *verifRng, chain *verifC20Chai
 	})
 
 	c := &verifC20Ctx{t: t, vc: vc, chain: chain, justified: map[string]bool{},
-		sentKeys: map[string]bool{}}
+		sentKeys: map[string]bool{}, sentSlot: sentSlot, sk: sk}
 	c.ctx, c.cancel = context.WithCancel(context.Background())
 
 	base := os.Getenv("VERIF_SCRATCH")
@@ -829,12 +868,42 @@ func verifC20NewCtx(t *testing.T, vc *verifCtx, r *verifRng, chain *verifC20Chai
 		t.Fatalf("mkdirtemp: %v", err)
 	}
 	c.dir = dir
-	backend, _, err := kvdb.GetTestBackend(dir, "cgr")
-	if err != nil {
-		t.Fatalf("graph backend: %v", err)
+
+	c.sentKey = sk[0]
+	c.sentPub = verifC20Pub(sk[0])
+	c.sentTs = 1500000000
+	c.sentPeer = &mockPeer{pk: verifC20Key(r.Fork("sentpeer")).PubKey()}
+
+	c.openStack(true, o)
+	return c
+}
+
+// openStack opens the graph store on the scenario's database (opening the
+// database file first when it is not open), and creates and starts a channel
+// graph, a builder and a gossiper over it. first=true additionally writes the
+// source node and the sentinel channel; on a re-open (node restart) both are
+// already in the database and every in-memory structure of the graph store
+// (reject cache, channel cache, graph cache), of the builder and of the
+// gossiper (premature / future message caches, reject cache, ban scores)
+// starts empty.
+func (c *verifC20Ctx) openStack(first bool, o verifC20StoreOpts) {
+	t, chain, sk, sentSlot := c.t, c.chain, c.sk, c.sentSlot
+	c.opts = o
+	if c.backend == nil {
+		backend, _, err := kvdb.GetTestBackend(c.dir, "cgr")
+		if err != nil {
+			t.Fatalf("graph backend: %v", err)
+		}
+		c.backend = backend
 	}
-	c.backend = backend
-	store, err := graphdb.NewKVStore(backend)
+	var mods []graphdb.StoreOptionModifier
+	if o.Rej > 0 {
+		mods = append(mods, graphdb.WithRejectCacheSize(o.Rej))
+	}
+	if o.Chan > 0 {
+		mods = append(mods, graphdb.WithChannelCacheSize(o.Chan))
+	}
+	store, err := graphdb.NewKVStore(c.backend, mods...)
 	if err != nil {
 		t.Fatalf("graph store: %v", err)
 	}
@@ -850,13 +919,15 @@ func verifC20NewCtx(t *testing.T, vc *verifCtx, r *verifRng, chain *verifC20Chai
 	c.vgraph = graphdb.NewVersionedGraph(g, lnwire.GossipVersion1)
 
 	selfPub := route.NewVertex(selfKeyDesc.PubKey)
-	err = g.SetSourceNode(c.ctx, models.NewV1Node(selfPub, &models.NodeV1Fields{
-		LastUpdate: time.Unix(1500000000, 0),
-		Features:   lnwire.NewRawFeatureVector(),
-		Alias:      "self",
-	}))
-	if err != nil {
-		t.Fatalf("set source node: %v", err)
+	if first {
+		err = g.SetSourceNode(c.ctx, models.NewV1Node(selfPub, &models.NodeV1Fields{
+			LastUpdate: time.Unix(1500000000, 0),
+			Features:   lnwire.NewRawFeatureVector(),
+			Alias:      "self",
+		}))
+		if err != nil {
+			t.Fatalf("set source node: %v", err)
+		}
 	}
 
 	cv := &verifC20ChainView{
@@ -864,6 +935,8 @@ func verifC20NewCtx(t *testing.T, vc *verifCtx, r *verifRng, chain *verifC20Chai
 		sb: make(chan *chainview.FilteredBlock),
 	}
 	isAlias := func(lnwire.ShortChannelID) bool { return false }
+	// a new notifier per stack: the old one still holds the (now dead) epoch
+	// clients of the stopped gossiper.
 	c.notifier = newMockNotifier()
 	b, err := graph.NewBuilder(&graph.Config{
 		SelfNode:            selfPub,
@@ -888,11 +961,7 @@ func verifC20NewCtx(t *testing.T, vc *verifCtx, r *verifRng, chain *verifC20Chai
 	// The sentinel channel is inserted directly into the graph (not through
 	// the gossiper), so that the flush mechanism does not depend on the
 	// channel-announcement validation path that is being judged.
-	c.sentKey = sk[0]
-	c.sentPub = verifC20Pub(sk[0])
-	c.sentTs = 1500000000
-	c.sentPeer = &mockPeer{pk: verifC20Key(r.Fork("sentpeer")).PubKey()}
-	{
+	if first {
 		n1, n2 := verifC20Pub(sk[0]), verifC20Pub(sk[1])
 		if bytes.Compare(n1[:], n2[:]) > 0 {
 			n1, n2 = n2, n1
@@ -920,7 +989,9 @@ func verifC20NewCtx(t *testing.T, vc *verifCtx, r *verifRng, chain *verifC20Chai
 		}
 	}
 
+	chain.mu.Lock()
 	hID := lnwire.ShortChannelID{BlockHeight: uint32(chain.tip)}
+	chain.mu.Unlock()
 	gossiper := New(Config{
 		ChanSeries:  newMockChannelGraphTimeSeries(hID),
 		ChainIO:     chain,
@@ -982,7 +1053,25 @@ func verifC20NewCtx(t *testing.T, vc *verifCtx, r *verifRng, chain *verifC20Chai
 	}
 	gossiper.syncMgr.markGraphSynced()
 	c.gossiper = gossiper
-	return c
+}
+
+// restart plays a node restart: gossiper, builder and graph store are stopped
+// and re-created on the SAME database (reopenFile: the database file itself is
+// closed and opened again as well). Nothing of the old in-memory state
+// survives; premature updates the old gossiper had stashed are gone with it.
+func (c *verifC20Ctx) restart(reopenFile bool, o verifC20StoreOpts) {
+	c.gossiper.Stop()
+	c.builder.Stop()
+	c.graph.Stop()
+	if reopenFile {
+		if err := c.backend.Close(); err != nil {
+			c.t.Fatalf("C20 harness: closing the graph database: %v", err)
+		}
+		c.backend = nil
+	}
+	c.pending = nil
+	c.restarts++
+	c.openStack(false, o)
 }
 
 func (c *verifC20Ctx) close() {
@@ -1019,6 +1108,13 @@ type verifC20Scn struct {
 
 	zombies []*verifC20Zombie
 	zBy     map[uint64]*verifC20Zombie
+
+	// restart dimension (own PRNG stream, so the message streams of the
+	// phases are the ones they had without it).
+	rr        *verifRng
+	sinceSame map[string]int // wire bytes -> deliveries since the last restart
+	sinceScid map[uint64]int // scid -> channel messages since the last restart
+	noShared  bool           // every delivery from a peer identity of its own
 }
 
 var verifC20Extra = []byte{0x4d, 0x02, 0xaa, 0xbb}
@@ -1842,6 +1938,15 @@ func (s *verifC20Scn) judge(label, kind string, before, after *verifC20Snap,
 	for _, k := range changed {
 		al := allowed[k]
 		kk := strings.SplitN(k, "/", 2)[0]
+		if kk == "hz" {
+			// the horizon view of a policy may change exactly when the policy
+			// itself may.
+			al = allowed["pol/"+strings.SplitN(k, "/", 2)[1]]
+			if al != nil {
+				vc.Count("hz_changes_allowed", 1)
+				continue
+			}
+		}
 		if al == nil {
 			_, was := before.kv[k]
 			_, is := after.kv[k]
@@ -2072,10 +2177,11 @@ func (s *verifC20Scn) submit(idx int, label string, m lnwire.Message) {
 	}
 
 	peer := &mockPeer{pk: verifC20Key(r).PubKey()}
-	if r.Chance(1, 8) {
+	if r.Chance(1, 8) && !s.noShared {
 		peer = s.shared
 		entry["peer"] = "shared"
 	}
+	s.countPostRestart(m, whex, scid, ref, before)
 	rec := &verifC20Rec{Idx: idx, Label: label, Msg: m, Hex: whex, Scid: scid}
 	tSubmit := time.Now()
 	rec.fut = c.gossiper.ProcessRemoteAnnouncement(c.ctx, m, peer)
@@ -3148,6 +3254,7 @@ func (s *verifC20Scn) xRound(nextIdx *int, n int) bool {
 		if verifC20SoftViolations(vc) > 20 {
 			return false
 		}
+		s.maybeRestart(*nextIdx, "xdir", 1, 9)
 		ch := s.snap.chans[id]
 		if !s.xOurChannel(ch) {
 			vc.Count("x_channel_lost", 1)
@@ -3212,7 +3319,281 @@ func (s *verifC20Scn) xRound(nextIdx *int, n int) bool {
 	return true
 }
 
-func verifC20RunScenario(t *testing.T, vc *verifCtx, r *verifRng, steps, zsteps, xrounds, xsteps int) {
+// ---------------------------------------------------------------------------
+// Restart dimension.
+//
+// restartStep tears down gossiper + builder + graph store and re-creates them
+// on the same database with cold in-memory caches (PRNG: database file closed
+// and re-opened or kept open; reject / channel cache of lnd's default size or
+// of 1..3 entries, so that lookups of other channels evict). It is used at PRNG
+// points inside the catalogue, zombie and cross-direction phases and once (or
+// twice) per round of the after-restart replay phase below. It is an
+// environment action, not a judged gossip step; the graph snapshot taken after
+// it is compared with the one before for a diagnostic only. No oracle is added
+// or changed: every message delivered after a restart goes through submit().
+// ---------------------------------------------------------------------------
+
+func (s *verifC20Scn) restartStep(idx int, where string) {
+	c, vc, rr := s.c, s.vc, s.rr
+	var o verifC20StoreOpts
+	switch rr.Intn(5) {
+	case 0, 1:
+	case 2:
+		o.Rej = 1
+	case 3:
+		o.Rej, o.Chan = 1+rr.Intn(3), 1+rr.Intn(2)
+	default:
+		o.Chan = 1
+	}
+	reopen := rr.Bool()
+	before := s.snap
+	entry := map[string]any{"i": idx, "label": "restart", "type": "env", "where": where,
+		"reopen_db_file": reopen, "reject_cache_size": o.Rej, "channel_cache_size": o.Chan}
+	s.log = append(s.log, entry)
+
+	c.restart(reopen, o)
+	// prime the flush path of the new gossiper; whatever it hands to
+	// Broadcast on its own is judged like any other broadcast.
+	c.waitBroadcast(c.quiesce())
+	s.checkBroadcasts("restart")
+	after := c.snapshot()
+	vc.Count("restarts", 1)
+	vc.Count("restarts_"+where, 1)
+	if reopen {
+		vc.Count("restarts_db_file_reopened", 1)
+	}
+	if o.Rej > 0 {
+		vc.Count("restarts_tiny_reject_cache", 1)
+	}
+	if o.Chan > 0 {
+		vc.Count("restarts_tiny_channel_cache", 1)
+	}
+	diff := verifC20Diff(before, after)
+	for id, b := range before.zomb {
+		if a, ok := after.zomb[id]; ok && a != b {
+			diff = append(diff, fmt.Sprintf("zombie/%d", id))
+		}
+	}
+	entry["changed"] = diff
+	if len(diff) > 0 {
+		vc.Count("restart_changed_graph", 1)
+		vc.Diag("restart_changed_graph:"+where, fmt.Sprintf("graph keys differ across a restart: %v", diff))
+	}
+	s.snap = after
+	s.sinceSame = map[string]int{}
+	s.sinceScid = map[uint64]int{}
+	vc.Sig(fmt.Sprintf("restart|%s|f%v|r%d|c%d|d%v", where, reopen, o.Rej, o.Chan, len(diff) > 0))
+}
+
+// maybeRestart restarts the node with probability num/den (restart stream).
+func (s *verifC20Scn) maybeRestart(idx int, where string, num, den int) {
+	if s.rr.Chance(num, den) {
+		s.restartStep(idx, where)
+	}
+}
+
+// countPostRestart is coverage bookkeeping only (no verdicts): how many
+// messages were delivered to a stack that had been restarted, and how many of
+// them were authentic-but-not-newer channel_updates delivered again (identical
+// bytes) or after an earlier lookup of their channel since that restart.
+func (s *verifC20Scn) countPostRestart(m lnwire.Message, whex string, scid uint64,
+	ref verifC20Verdict, before *verifC20Snap) {
+
+	vc := s.vc
+	tiny := s.c.opts.Rej > 0
+	if tiny {
+		vc.Count("tiny_reject_cache_deliveries", 1)
+	}
+	if s.c.opts.Chan > 0 {
+		vc.Count("tiny_channel_cache_deliveries", 1)
+	}
+	if s.c.restarts == 0 {
+		return
+	}
+	vc.Count("post_restart_deliveries", 1)
+	prevSame, prevScid := s.sinceSame[whex], s.sinceScid[scid]
+	if prevSame > 0 {
+		vc.Count("post_restart_repeated_deliveries", 1)
+	}
+	if u, ok := m.(*lnwire.ChannelUpdate1); ok && ref.Reason == "not-newer" {
+		d := int(u.ChannelFlags & lnwire.ChanUpdateDirection)
+		gtOth := false
+		if ch := before.chans[scid]; ch != nil {
+			oth := ch.Pol[1-d]
+			gtOth = oth == nil || u.Timestamp > oth.Ts
+		}
+		vc.Count("post_restart_stale", 1)
+		if prevScid == 0 {
+			vc.Count("stale_on_first_lookup_after_restart", 1)
+		} else {
+			vc.Count("stale_after_lookup_after_restart", 1)
+			if gtOth {
+				vc.Count(fmt.Sprintf("stale_gt_oth_after_lookup_d%d", d), 1)
+			}
+		}
+		if prevSame > 0 {
+			vc.Count("repeated_stale_deliveries", 1)
+			vc.Count(fmt.Sprintf("repeated_stale_deliveries_d%d", d), 1)
+			if gtOth {
+				vc.Count(fmt.Sprintf("repeated_stale_gt_oth_d%d", d), 1)
+			}
+			if tiny {
+				vc.Count("repeated_stale_tiny_reject_cache", 1)
+			}
+		}
+	}
+	s.sinceSame[whex]++
+	if scid != 0 {
+		s.sinceScid[scid]++
+	}
+}
+
+// ---------------------------------------------------------------------------
+// After-restart replay phase ("r phase", own PRNG stream, after the x phase).
+//
+// One round: a channel between our two nodes is announced (or reused), both
+// directions get a stored policy at PRNG timestamps (direction 0 older / newer
+// by 1e4..5e6 s / equal; sometimes only one direction), THEN THE NODE IS
+// RESTARTED, then authentic channel_updates of the cross product (xGenCU:
+// either direction, timestamp older than both stored ones / strictly between
+// them / equal to own / equal to the other direction's / +-1 / newer than both,
+// flag space as in the x phase) are delivered 1-3 times each - identical bytes,
+// every delivery from a peer identity of its own - interleaved with duplicate
+// channel_announcements of the same channel, node announcements, lookups of
+// OTHER channels (duplicate announcement or an update; with a 1..3 entry reject
+// cache they evict) and, rarely, a further restart. Same reference, same
+// oracles (submit()).
+// ---------------------------------------------------------------------------
+
+var verifC20RLayouts = []string{"d0-older", "d0-older", "d0-older", "d0-newer", "d0-newer",
+	"equal", "only0", "only1"}
+
+// rInterleave delivers one message that makes lnd look a channel up without
+// being the replayed update itself.
+func (s *verifC20Scn) rInterleave(id uint64, nextIdx *int) {
+	r, vc := s.r, s.vc
+	scid := lnwire.NewShortChanIDFromInt(id)
+	switch x := r.Intn(10); {
+	case x < 3:
+		vc.Count("r_dup_ca", 1)
+		s.submit(*nextIdx, "r.ca.dup", verifC20BuildCA(scid, s.keys))
+		*nextIdx++
+	case x < 5:
+		l, m := s.genNA()
+		vc.Count("r_na", 1)
+		s.submit(*nextIdx, "r."+l, m)
+		*nextIdx++
+	case x < 9:
+		// another channel of ours: a lookup that competes for the cache.
+		var oth []uint64
+		for oid, ch := range s.snap.chans {
+			if oid != id && s.xOurChannel(ch) {
+				oth = append(oth, oid)
+			}
+		}
+		if len(oth) == 0 {
+			return
+		}
+		sort.Slice(oth, func(i, j int) bool { return oth[i] < oth[j] })
+		oid := oth[r.Intn(len(oth))]
+		oscid := lnwire.NewShortChanIDFromInt(oid)
+		vc.Count("r_other_channel_lookup", 1)
+		if r.Bool() {
+			s.submit(*nextIdx, "r.other.ca.dup", verifC20BuildCA(oscid, s.keys))
+		} else {
+			och := s.snap.chans[oid]
+			d := r.Intn(2)
+			ts := uint32(1600100000 + r.Intn(50000000))
+			if p := och.Pol[d]; p != nil && r.Bool() {
+				// stale or equal for that channel.
+				ts = p.Ts - uint32(r.Intn(3))
+			}
+			own := och.N1
+			if d == 1 {
+				own = och.N2
+			}
+			s.submit(*nextIdx, fmt.Sprintf("r.other.cu.d%d", d), s.buildCU(oscid, d, ts, s.signerFor(own)))
+		}
+		*nextIdx++
+	default:
+		s.restartStep(*nextIdx, "replay-mid")
+		*nextIdx++
+	}
+}
+
+func (s *verifC20Scn) rRound(nextIdx *int, items int) bool {
+	r, vc := s.r, s.vc
+	id, ok := s.xChannel(nextIdx)
+	if !ok {
+		vc.Count("r_no_channel", 1)
+		return false
+	}
+	layout := verifC20RLayouts[r.Intn(len(verifC20RLayouts))]
+	s.log = append(s.log, map[string]any{"i": *nextIdx, "label": "r.channel", "type": "env",
+		"scid": id, "layout_wanted": layout})
+	*nextIdx++
+	s.xSetup(id, layout, nextIdx)
+	if ch := s.snap.chans[id]; s.xOurChannel(ch) {
+		vc.Count("r_layout_"+verifC20XLayoutOf(ch), 1)
+	}
+	vc.Count("r_rounds", 1)
+	s.restartStep(*nextIdx, "replay")
+	*nextIdx++
+	s.noShared = true
+	defer func() { s.noShared = false }()
+	for k := 0; k < items; k++ {
+		if verifC20SoftViolations(vc) > 20 {
+			return false
+		}
+		ch := s.snap.chans[id]
+		if !s.xOurChannel(ch) {
+			vc.Count("r_channel_lost", 1)
+			return true
+		}
+		label, u, d, _ := s.xGenCU(id)
+		label = "r" + strings.TrimPrefix(label, "x")
+		ref := verifC20RefCU(u, ch)
+		class := "other"
+		switch {
+		case ref.Valid:
+			class = "fresh"
+		case ref.Reason == "not-newer" && ch.Pol[d] != nil && u.Timestamp == ch.Pol[d].Ts:
+			class = "equal"
+		case ref.Reason == "not-newer":
+			class = "stale"
+		}
+		reps := 1 + r.Intn(3)
+		vc.Count("r_items", 1)
+		vc.Count("r_items_"+class, 1)
+		vc.Count(fmt.Sprintf("r_items_reps%d", reps), 1)
+		for j := 0; j < reps; j++ {
+			if r.Chance(2, 5) {
+				s.rInterleave(id, nextIdx)
+				if !s.xOurChannel(s.snap.chans[id]) {
+					vc.Count("r_channel_lost", 1)
+					return true
+				}
+			}
+			var m lnwire.Message = u
+			l := label
+			if j > 0 {
+				m = verifC20Clone(u)
+				l = fmt.Sprintf("%s.dup%d", label, j+1)
+				if m == nil {
+					break
+				}
+			}
+			vc.Count("r_cu", 1)
+			vc.Count(fmt.Sprintf("r_cu_%s_d%d", class, d), 1)
+			s.submit(*nextIdx, l, m)
+			*nextIdx++
+		}
+	}
+	return true
+}
+
+func verifC20RunScenario(t *testing.T, vc *verifCtx, r *verifRng, caseIdx, steps, zsteps, xrounds, xsteps,
+	rrounds, ritems int) {
 	var keys, sk [4]*btcec.PrivateKey
 	for i := range keys {
 		keys[i] = verifC20Key(r)
@@ -3224,12 +3605,25 @@ func verifC20RunScenario(t *testing.T, vc *verifCtx, r *verifRng, steps, zsteps,
 	}
 	other := verifC20Key(r)
 	chain, slots, hidden, sentSlot, nHidden := verifC20BuildChain(r, keys, sk, other)
-	c := verifC20NewCtx(t, vc, r, chain, sentSlot, sk)
+	// restart decisions and the replay phase have streams of their own,
+	// derived from (seed, case) without touching the scenario's stream.
+	rr := vc.Rng(1<<27 + caseIdx)
+	// 1 scenario in 4 starts with tiny caches already (eviction without any
+	// restart).
+	var o0 verifC20StoreOpts
+	if rr.Chance(1, 4) {
+		o0 = verifC20StoreOpts{Rej: 1 + rr.Intn(2), Chan: 1 + rr.Intn(2)}
+		vc.Count("scenarios_tiny_caches_from_start", 1)
+	}
+	c := verifC20NewCtx(t, vc, r, chain, sentSlot, sk, o0)
 	defer c.close()
 
 	s := &verifC20Scn{c: c, r: r, vc: vc, keys: keys, other: other, slots: slots,
 		hidden: hidden, nHidden: nHidden,
-		shared: &mockPeer{pk: verifC20Key(r).PubKey()}}
+		shared: &mockPeer{pk: verifC20Key(r).PubKey()},
+		rr:        rr,
+		sinceSame: map[string]int{}, sinceScid: map[uint64]int{}}
+	rReplay := s.rr.Fork("replay")
 	for _, sl := range slots {
 		if sl.Kind == verifC20KindGood {
 			s.main = sl
@@ -3254,6 +3648,9 @@ func verifC20RunScenario(t *testing.T, vc *verifCtx, r *verifRng, steps, zsteps,
 	for i := 0; i < steps; i++ {
 		if verifC20SoftViolations(vc) > 20 {
 			return
+		}
+		if i > 0 {
+			s.maybeRestart(i, "catalogue", 1, 14)
 		}
 		if i == forceAt && !s.mainAnnounced {
 			s.mainAnnounced = true
@@ -3287,6 +3684,9 @@ func verifC20RunScenario(t *testing.T, vc *verifCtx, r *verifRng, steps, zsteps,
 	for j := 0; j < zsteps; j++ {
 		if verifC20SoftViolations(vc) > 20 {
 			return
+		}
+		if j > 0 {
+			s.maybeRestart(idx, "zombie", 1, 10)
 		}
 		dead := 0
 		for _, z := range s.zombies {
@@ -3330,6 +3730,17 @@ func verifC20RunScenario(t *testing.T, vc *verifCtx, r *verifRng, steps, zsteps,
 		}
 	}
 
+	// After-restart replay phase (own PRNG stream): see rRound.
+	s.r = rReplay
+	for j := 0; j < rrounds; j++ {
+		if verifC20SoftViolations(vc) > 20 {
+			return
+		}
+		if !s.rRound(&idx, ritems) {
+			break
+		}
+	}
+
 	// Final flush: one more trickle so that late broadcasts are judged too.
 	c.waitBroadcast(c.quiesce())
 	c.waitBroadcast(c.quiesce())
@@ -3354,7 +3765,7 @@ func verifC20ProbeV2(t *testing.T, vc *verifCtx) {
 		sk[i] = verifC20Key(r)
 	}
 	chain, _, _, sentSlot, _ := verifC20BuildChain(r, keys, sk, verifC20Key(r))
-	c := verifC20NewCtx(t, vc, r, chain, sentSlot, sk)
+	c := verifC20NewCtx(t, vc, r, chain, sentSlot, sk, verifC20StoreOpts{})
 	defer c.close()
 	before := c.snapshot()
 	res := []string{}
@@ -3422,7 +3833,7 @@ func TestVerifC20(t *testing.T) {
 		}
 	}
 
-	const steps, zsteps, xrounds, xsteps = 40, 28, 2, 12
+	const steps, zsteps, xrounds, xsteps, rrounds, ritems = 40, 28, 2, 12, 2, 6
 	total := vc.N(256, 14000)
 	if vc.Only < 0 && vc.Shard == 0 {
 		verifC20ProbeV2(t, vc)
@@ -3433,8 +3844,8 @@ func TestVerifC20(t *testing.T) {
 		}
 		r := vc.Rng(i)
 		vc.Case(i, map[string]any{"scenario": i, "steps": steps, "zombie_steps": zsteps,
-			"x_rounds": xrounds, "x_steps": xsteps})
-		verifC20RunScenario(t, vc, r, steps, zsteps, xrounds, xsteps)
+			"x_rounds": xrounds, "x_steps": xsteps, "replay_rounds": rrounds, "replay_items": ritems})
+		verifC20RunScenario(t, vc, r, i, steps, zsteps, xrounds, xsteps, rrounds, ritems)
 		vc.CaseDone(i)
 	}
 }
